@@ -261,7 +261,10 @@ var specs = map[string]*propSpec{
 			// attached clients are answered by hand-built Ethernet frames (the second serialiser)
 			{engine: "setup", netns: true, qBatches: 8, qCases: 60, tBatches: 32, tCases: 600},
 			// accepted configurations with several instances of one plugin (dual-stack and twin file instances, empty lease files)
-			{engine: "file", parallel: 12, qBatches: 8, qCases: 12, tBatches: 32, tCases: 60, stall: 6 * time.Minute}},
+			{engine: "file", parallel: 12, qBatches: 8, qCases: 12, tBatches: 32, tCases: 60, stall: 6 * time.Minute},
+			// accepted configurations of the real binary in the environments of the wire variants (a terminal at
+			// debug level with an exhausted pool, an unwritable log file, ...): the process must stay up
+			wireVarRun()},
 		guards: []guard{{"setup.accepted", 200, "accepted vectors"}, {"setup.rejected", 200, "rejected vectors"}, {"setup.replies_round_tripped", 3000, "replies round-tripped"}},
 	},
 	"C20": {
